@@ -25,6 +25,7 @@
 
 use std::collections::BTreeMap;
 use std::collections::btree_map::Entry;
+use std::ops::Bound;
 
 use log::{debug, trace, warn};
 use thiserror::Error;
@@ -238,7 +239,19 @@ impl BlockData {
         }
 
         match self.last_slice {
-            None if is_last => self.mark_last_slice(slice_index),
+            None if is_last => {
+                // a slice beyond the one now declared last was already accepted,
+                // so the leader contradicts itself (whichever of the two arrives first)
+                if self
+                    .commitment_cache
+                    .range((Bound::Excluded(slice_index), Bound::Unbounded))
+                    .next()
+                    .is_some()
+                {
+                    return Err(AddShredError::Equivocation);
+                }
+                self.mark_last_slice(slice_index);
+            }
             None => {}
             Some(l) => {
                 let consistent = (slice_index < l && !is_last) || (slice_index == l && is_last);
